@@ -5,3 +5,47 @@
 
 // owner: group a3. `super::super` is the repository module `source`.
 use super::super::*;
+
+/// Plain-number view of the private session state of an `NtpSource` (read-only; used by
+/// the a3 monitors for violation details and shape signatures, never for verdicts).
+#[derive(Clone, Copy, Debug, PartialEq, Eq, Hash)]
+pub struct SrcProbe {
+    /// 0 = V4, 1 = V4UpgradingToV5, 2 = UpgradedToV5, 3 = V5
+    pub proto: u8,
+    /// `tries_left` of V4UpgradingToV5 (0 otherwise)
+    pub tries_left: u8,
+    pub reach: u8,
+    pub tries: usize,
+    pub last_poll: i8,
+    pub remote_min_poll: i8,
+    pub have_deny: bool,
+    pub has_pending: bool,
+    pub stratum: u8,
+    pub is_nts: bool,
+}
+
+pub fn probe<C: SourceController>(s: &NtpSource<C>) -> SrcProbe {
+    let (proto, tries_left) = match s.protocol_version {
+        ProtocolVersion::V4 => (0, 0),
+        ProtocolVersion::V4UpgradingToV5 { tries_left } => (1, tries_left),
+        ProtocolVersion::UpgradedToV5 => (2, 0),
+        ProtocolVersion::V5 => (3, 0),
+    };
+    SrcProbe {
+        proto,
+        tries_left,
+        reach: s.reach.0,
+        tries: s.tries,
+        last_poll: s.last_poll_interval.as_log(),
+        remote_min_poll: s.remote_min_poll_interval.as_log(),
+        have_deny: s.have_deny_rstr_response,
+        has_pending: s.current_request_identifier.is_some(),
+        stratum: s.stratum,
+        is_nts: s.nts.is_some(),
+    }
+}
+
+/// The controller owned by the source (the spy the harness installed).
+pub fn controller<C: SourceController>(s: &NtpSource<C>) -> &C {
+    &s.controller
+}
